@@ -60,7 +60,7 @@ func (g *inputGen) prim(t *rapid.T) zed.Type {
 }
 
 func (g *inputGen) smallRecord(t *rapid.T, depth int) zed.Type {
-	n := 1+Uniform(t, 3, "nsub")
+	n := 1 + Uniform(t, 3, "nsub")
 	names := rapid.Permutation(FieldNames).Draw(t, "subnames")
 	fields := make([]zed.Field, n)
 	for i := range fields {
@@ -93,7 +93,7 @@ func (g *inputGen) fieldType(t *rapid.T, depth int) zed.Type {
 	case 6:
 		return g.zctx.LookupTypeArray(g.prim(t))
 	case 7:
-		switch 0+Uniform(t, 3, "setmap") {
+		switch 0 + Uniform(t, 3, "setmap") {
 		case 0:
 			return g.zctx.LookupTypeSet(g.prim(t))
 		case 1:
@@ -108,7 +108,7 @@ func (g *inputGen) fieldType(t *rapid.T, depth int) zed.Type {
 		}
 		return g.zctx.LookupTypeUnion([]zed.Type{a, b})
 	case 9:
-		switch 0+Uniform(t, 3, "namedkind") {
+		switch 0 + Uniform(t, 3, "namedkind") {
 		case 0:
 			return g.named("port", zed.TypeInt64)
 		case 1:
@@ -128,7 +128,7 @@ func (g *inputGen) fieldType(t *rapid.T, depth int) zed.Type {
 	case 14:
 		return g.named("foo", g.smallRecord(t, depth-1))
 	default:
-		switch 0+Uniform(t, 3, "rich2") {
+		switch 0 + Uniform(t, 3, "rich2") {
 		case 0:
 			return g.zctx.LookupTypeSet(g.smallRecord(t, depth-1))
 		case 1:
@@ -216,10 +216,10 @@ func DrawInput(t *rapid.T, o InputOpts) gen.Seq {
 	tg := &gen.TypeGen{Zctx: zctx, Opts: gen.TypeOpts{SimpleNames: true, MaxDepth: 2, NoNamed: true}}
 	vg := &gen.ValGen{Zctx: zctx, Types: tg, Opts: gen.ValOpts{Small: true, MaxLen: 3, NullPercent: 10}}
 	vgKey := &gen.ValGen{Zctx: zctx, Types: tg, Opts: gen.ValOpts{Small: true, MaxLen: 3, NoNulls: true}}
-	nshapes := 1+Uniform(t, o.MaxShapes, "nshapes")
+	nshapes := 1 + Uniform(t, o.MaxShapes, "nshapes")
 	shapes := make([]*zed.TypeRecord, nshapes)
 	for i := range shapes {
-		nf := 1+Uniform(t, 5, "nfields")
+		nf := 1 + Uniform(t, 5, "nfields")
 		names := rapid.Permutation(FieldNames).Draw(t, "names")
 		var fields []zed.Field
 		if o.CleanKey {
